@@ -19,7 +19,7 @@ MANIFEST = dict(
     technique="Lean 4 proofs over a resolution model + one-edit mutation testing of well-scoped programs through the real compiler", ref="4/C10")
 
 KEYWORDS = {"case", "null", "true", "false", "this", "that", "in", "sum", "count", "min", "max", "count_distinct", "average", "side",
-            "inner", "left", "right", "full", "math", "round", "row_number", "from", "select"}
+            "inner", "left", "right", "full", "math", "round", "row_number", "from", "select", "lag", "lead", "rank"}
 REF = r"[a-z_][a-z0-9_]*(?:\.[a-z_][a-z0-9_]*)?"
 
 
@@ -51,6 +51,7 @@ def split_top(s, sep):
 
 def refs_of(expr):
     e = re.sub(r"'[^']*'", "''", expr)
+    e = re.sub(r'\b[fs]"([^"]*)"', lambda m: "(" + " , ".join(re.findall(r"\{([^}]*)\}", m.group(1))) + ")", e)
     out = []
     for m in re.finditer(r"(?<![\w.])(" + REF + r")(?![\w]*:)", e):
         r = m.group(1)
@@ -245,11 +246,24 @@ def edits(c, rng):
         # a name that never existed, in a fully known frame
         if closed[j]:
             new = rng.choice(["derive {zq = zz9}", "filter (zz9 != null)", "sort {zz9}", "select {zz9}", "derive {zq = (zz9 + 1)}",
-                              "derive {zq = case [zz9 == 1 => 2]}"])
+                              "derive {zq = case [zz9 == 1 => 2]}", 'derive {zq = f"{zz9}x"}', 'derive {zq = s"abs({zz9})"}',
+                              "derive {zq = (lag 1 zz9)}", "aggregate {zq = count_distinct zz9}", "group {zz9} (aggregate {zq = count this})",
+                              "filter (zz9 | in 1..3)"])
             out.append(dict(kind="unknown-column", site=j, lines=c.text[:j + 1] + [new] + c.text[j + 1:], expect="unknown", name="zz9"))
             # qualified by a relation that is not (or no longer) an input of the frame
             new = "derive {zq = zrel.zz9}"
             out.append(dict(kind="unknown-qualified", site=j, lines=c.text[:j + 1] + [new] + c.text[j + 1:], expect="unknown", name="zrel.zz9"))
+        # the same inside a join condition (the joined relation is not used anywhere else in the program)
+        alltext0 = " ".join(c.text) + " " + " ".join(t for _, t, _ in c.lets)
+        free = [n for n, _ in c.schema.tables if not re.search(rf"\b{n}\b", alltext0)]
+        if closed[j] and free and c.declared:
+            t = free[0]
+            tcols = [col.name for col in dict(c.schema.tables)[t]]
+            tcol = tcols[0]
+            cand = [d for d in dropped if d not in tcols]        # the joined relation must not provide the name either
+            nm = rng.choice(cand) if cand else "zz9"
+            new = f"join side:left {t} ({nm} == {t}.{tcol})"
+            out.append(dict(kind="unknown-in-join-condition", site=j, lines=c.text[:j + 1] + [new] + c.text[j + 1:], expect="unknown", name=nm))
         # (b) bare name that two relations in scope provide
         quals = {}
         for col in fr:
@@ -399,8 +413,6 @@ def explore(ctx, label, rng, n, profile, quick):
     reqs, meta = [], []
     for c in good:
         es = edits(c, rng)
-        if quick and len(es) > 14:
-            es = rng.sample(es, 14)
         for e in es:
             prql = render(c, e["lines"], prelude=e.get("prelude", ""))
             try:
@@ -495,12 +507,88 @@ DECL_P = dict(declared=True, shared_k=True, append_inline=True, open_take=False,
 DECL_K = dict(declared=True, shared_k=False, append_inline=True, open_take=False, dup_names=False)
 UNDECL_P = dict(declared=False, shared_k=False, append_inline=True, open_take=False, dup_names=False)
 
-# hand-written programs for the parts of the model the generator does not reach: (program, expected compiler class)
+# hand-written programs for the parts of the model the generator does not reach: (program, model program, expected class, expected name)
+T0 = "( table t0 ( u0 a0 k ) )"
+T1 = "( table t1 ( u1 a1 k ) )"
+CD = "module default_db {\n let t0 <[{u0 = int, a0 = int, k = int}]>\n let t1 <[{u1 = int, a1 = int, k = int}]>\n}\n"
+
+
+def P(src, *steps, lets="", alias="-", globals_=""):
+    return f"( ( {globals_} ) ( {lets} ) ( {src} {alias} " + " ".join(steps) + " ) )"
+
+
 CORPUS = [
-    ("from t | select {sum = a} | filter sum > 1", "ambiguous"),                   # a column named like a std function
-    ("let lt = (from t | select {a})\nfrom lt | filter lt.a > 1", "ambiguous"),         # a let named like a std function
-    ("from t | select {a, b} | filter a > 1 | select {b}", "ok"),
+    # a column named like a top-level std function: `std` is a root redirect
+    (CD + "from t0 | select {sum = a0} | filter sum > 1", P(T0, "( select ( sum 0 a0 ) )", "( filter sum )"), "ambiguous", "sum"),
+    (CD + "from t0 | select {average = a0, u0} | filter average > u0", P(T0, "( select ( average 0 a0 ) ( - 1 u0 ) )", "( filter average u0 )"), "ambiguous", "average"),
+    # aliases of a tuple are in scope for the following fields; an alias equal to a column name is then ambiguous
+    (CD + "from t0 | select {x = a0, y = x + 1, z = t0.a0}", P(T0, "( select ( x 0 a0 ) ( y 0 x ) ( z 0 t0.a0 ) )"), "ok", None),
+    (CD + "from t0 | derive {u0 = a0, y = u0 + 1}", P(T0, "( derive ( u0 0 a0 ) ( y 0 u0 ) )"), "ambiguous", "u0"),
+    (CD + "from t0 | select {a0 = u0, y = a0 + 1}", P(T0, "( select ( a0 0 u0 ) ( y 0 a0 ) )"), "ambiguous", "a0"),
+    (CD + "from t0 | aggregate {x = sum u0, y = x + 1}", P(T0, "( aggregate ( x 0 u0 ) ( y 0 x ) )"), "ok", None),
+    # a new column takes the name away from older columns of that name
+    (CD + "from t0 | derive {u0 = a0} | filter t0.u0 > 0", P(T0, "( derive ( u0 0 a0 ) )", "( filter t0.u0 )"), "unknown", "t0.u0"),
+    (CD + "from t0 | derive {u0 = a0} | select {u0, t0.a0}", P(T0, "( derive ( u0 0 a0 ) )", "( select ( - 1 u0 ) ( - 1 t0.a0 ) )"), "ok", None),
+    (CD + "from t0 | join t1 (t0.k == t1.k) | derive {k = 1} | filter k > 0 | select {t0.k}",
+     P(T0, f"( join {T1} - ( t0.k t1.k ) ( ) ( ) )", "( derive ( k 0 ) )", "( filter k )", "( select ( - 1 t0.k ) )"), "unknown", "t0.k"),
+    (CD + "from t0 | join t1 (==k) | select {t0.k, t1.k} | filter k > 1",
+     P(T0, f"( join {T1} - ( ) ( k ) ( k ) )", "( select ( - 1 t0.k ) ( - 1 t1.k ) )", "( filter k )"), "ok", None),
+    # select keeps the input of a plain reference, an alias does not
+    (CD + "from t0 | select {u0} | filter t0.u0 > 1", P(T0, "( select ( - 1 u0 ) )", "( filter t0.u0 )"), "ok", None),
+    (CD + "from t0 | select {x = u0} | filter t0.u0 > 1", P(T0, "( select ( x 0 u0 ) )", "( filter t0.u0 )"), "unknown", "t0.u0"),
+    # bare name of two joined relations; the join condition
+    (CD + "from t0 | join t1 (==k) | select {k}", P(T0, f"( join {T1} - ( ) ( k ) ( k ) )", "( select ( - 1 k ) )"), "ambiguous", "k"),
+    (CD + "from t0 | join t1 (k == k)", P(T0, f"( join {T1} - ( k k ) ( ) ( ) )"), "ambiguous", "k"),
+    (CD + "from t0 | join t1 (==zz)", P(T0, f"( join {T1} - ( ) ( zz ) ( zz ) )"), "unknown", "zz"),
+    (CD + "from t0 | join t1 (==u0)", P(T0, f"( join {T1} - ( ) ( u0 ) ( u0 ) )"), "unknown", "u0"),
+    (CD + "from t0 | join t1 (u0 == u1) | select {t0.k, y = k + 1}", P(T0, f"( join {T1} - ( u0 u1 ) ( ) ( ) )", "( select ( - 1 t0.k ) ( y 0 k ) )"), "ambiguous", "k"),
+    # group: the keys are not visible inside, keep their input outside
+    (CD + "from t0 | group k (sort k | take 1)", P(T0, "( groupwin ( ( - 1 k ) ) ( ( - 1 k ) ) )"), "unknown", "k"),
+    (CD + "from t0 | group k (aggregate {x = sum k})", P(T0, "( groupagg ( ( - 1 k ) ) ( ( x 0 k ) ) )"), "unknown", "k"),
+    (CD + "from t0 | group k (take 1) | filter k > 1 | filter t0.k > 1 | select {t0.u0}",
+     P(T0, "( groupwin ( ( - 1 k ) ) ( ) )", "( filter k )", "( filter t0.k )", "( select ( - 1 t0.u0 ) )"), "ok", None),
+    (CD + "from t0 | join t1 (==k) | group t0.k (aggregate {x = sum a1}) | filter t1.k > 1",
+     P(T0, f"( join {T1} - ( ) ( k ) ( k ) )", "( groupagg ( ( - 1 t0.k ) ) ( ( x 0 a1 ) ) )", "( filter t1.k )"), "unknown", "t1.k"),
+    (CD + "from t0 | join t1 (==k) | group t0.k (aggregate {x = sum a1}) | filter k > 1 | filter t0.k > 1",
+     P(T0, f"( join {T1} - ( ) ( k ) ( k ) )", "( groupagg ( ( - 1 t0.k ) ) ( ( x 0 a1 ) ) )", "( filter k )", "( filter t0.k )"), "ok", None),
+    # aliases of relations, let relations, append
+    (CD + "from x = t0 | filter x.u0 > 1 | filter t0.u0 > 1", P(T0, "( filter x.u0 )", "( filter t0.u0 )", alias="x"), "unknown", "t0.u0"),
+    (CD + "let l0 = (from t0 | select {u0, z = a0})\nfrom l0 | filter l0.z > 1 | filter u0 > 0 | filter t0.u0 > 0",
+     P("( let l0 0 )", "( filter l0.z )", "( filter u0 )", "( filter t0.u0 )", lets=f"( {T0} - ( select ( - 1 u0 ) ( z 0 a0 ) ) )", globals_="l0"), "unknown", "t0.u0"),
+    (CD + "from t0 | append t1 | filter u0 > 1 | filter t0.u0 > 1", P(T0, f"( append {T1} )", "( filter u0 )", "( filter t0.u0 )"), "ok", None),
+    (CD + "from t0 | append t1 | filter u1 > 1", P(T0, f"( append {T1} )", "( filter u1 )"), "unknown", "u1"),
+    (CD + "from t0 | select {a = u0} | append (from t1 | select {b = u1}) | filter b > 1",
+     P(T0, "( select ( a 0 u0 ) )", "( append ( inline 0 ) )", "( filter b )", lets=f"( {T1} - ( select ( b 0 u1 ) ) )"), "unknown", "b"),
+    # undeclared tables: inference while the frame has a wildcard, and only then
+    ("from t0 | filter a0 > 1", P("( table t0 - )", "( filter a0 )"), "ok", None),
+    ("from t0 | select {t0.u0} | filter a0 > 1", P("( table t0 - )", "( select ( - 1 t0.u0 ) )", "( filter a0 )"), "unknown", "a0"),
+    ("from t0 | join t1 (t0.k == t1.k) | select {zz}", P("( table t0 - )", "( join ( table t1 - ) - ( t0.k t1.k ) ( ) ( ) )", "( select ( - 1 zz ) )"), "ambiguous", "zz"),
+    ("from t0 | join t1 (t0.k == t1.k) | select {t0.zz}", P("( table t0 - )", "( join ( table t1 - ) - ( t0.k t1.k ) ( ) ( ) )", "( select ( - 1 t0.zz ) )"), "ok", None),
+    ("from t0 | join t1 (t0.k == t1.k) | select {t0.a, t1.b} | filter t1.zz > 1",
+     P("( table t0 - )", "( join ( table t1 - ) - ( t0.k t1.k ) ( ) ( ) )", "( select ( - 1 t0.a ) ( - 1 t1.b ) )", "( filter t1.zz )"), "unknown", "t1.zz"),
+    ("from t0 | aggregate {s = sum a} | filter a > 1", P("( table t0 - )", "( aggregate ( s 0 a ) )", "( filter a )"), "unknown", "a"),
+    # scalar where a relation is required
+    ("from 5", P("( scalar )"), "relation", None),
+    (CD + "from t0 | append 7", P(T0, "( append ( scalar ) )"), "relation", None),
 ]
+
+
+def corpus_cases(ctx):
+    ans = vh_batch([{"op": "compile", "prql": p, "target": "sql.sqlite"} for p, _, _, _ in CORPUS])
+    mod = drv_batch(["scope\t" + m for _, m, _, _ in CORPUS])
+    for (p, mp, exp, name), a, m in zip(CORPUS, ans, mod):
+        ic, mc = err_class(a), model_class(m)
+        ctx.case(("corpus", p), nontrivial=True)
+        ctx.count("corpus:" + ic[0])
+        rep = {"prql": p, "model_program": mp, "compiler": ic, "model": m, "expected": [exp, name]}
+        icn = "relation" if (exp == "relation" and ic[0] in ("bug", "other")) else ic[0]
+        if mc[0] != exp or (name and exp != "ok" and mc[1] != name):
+            ctx.disagreement("corpus-model", f"the model says {m}, the corpus entry expects {exp} {name}", rep)
+        if icn != exp or (exp == "unknown" and strip_this(ic[1]) != name):
+            if ic[0] == "ok" and exp != "ok":
+                ctx.oracle_failure(None, f"corpus: an ill-scoped program compiles ({exp} {name} expected)", rep)
+            else:
+                ctx.disagreement("corpus-compiler", f"the compiler says {ic}, the corpus entry expects {exp} {name}", rep)
 
 
 def run(ctx):
@@ -522,11 +610,12 @@ def run(ctx):
     quick = ctx.tier == "quick"
     fixed = random.Random(101010)
     arg_cases(ctx)
-    explore(ctx, "declared-shared-k", fixed, 150 if quick else 1500, DECL_P, quick)
-    explore(ctx, "declared", fixed, 100 if quick else 1000, DECL_K, quick)
-    explore(ctx, "undeclared", fixed, 100 if quick else 1000, UNDECL_P, quick)
-    explore(ctx, "seed-tail-declared", ctx.rng, 100 if quick else 1500, DECL_P, quick)
-    explore(ctx, "seed-tail-undeclared", ctx.rng, 60 if quick else 800, UNDECL_P, quick)
+    corpus_cases(ctx)
+    explore(ctx, "declared-shared-k", fixed, 500 if quick else 4000, DECL_P, quick)
+    explore(ctx, "declared", fixed, 300 if quick else 2500, DECL_K, quick)
+    explore(ctx, "undeclared", fixed, 300 if quick else 2500, UNDECL_P, quick)
+    explore(ctx, "seed-tail-declared", ctx.rng, 300 if quick else 4000, DECL_P, quick)
+    explore(ctx, "seed-tail-undeclared", ctx.rng, 200 if quick else 2000, UNDECL_P, quick)
     ctx.obligation("oracle: every ill-scoped variant ends in an error, never in SQL or a panic (all unlisted cases)",
                    not [v for v in ctx.violations if v["kind"] == "failing-input"], f"{ctx.oracle_failures} failing variants")
     dis = [v for v in ctx.violations if v["kind"] == "correspondence"]
